@@ -1,4 +1,5 @@
 import Sourmash.Lemmas.NodegraphRoundtrip
+import Sourmash.Lemmas.NodegraphReach
 /-! Property C16 — nodegraph files are khmer-compatible and round-trip for every table size.
 
 The model (`NG.G.save`, `NG.G.load` in `Model/Nodegraph.lean`) is `save_to_writer` / `from_reader`
@@ -70,26 +71,15 @@ theorem save_pre_repair_agrees (t : Table) (hlen : t.blocks.length = nblocks t.s
   · have hlt : (t.size / 8 + 1) / 4 < t.blocks.length := by rw [hlen]; unfold nblocks; omega
     simp [hrem, List.getElem?_eq_getElem hlt, List.getD_eq_getElem?_getD]
 
+example : (⟨33, [5, 1]⟩ : Table).saveOld = (⟨33, [5, 1]⟩ : Table).save :=
+  save_pre_repair_agrees _ (by decide) (by decide)
+
 /-- the repaired code on that input -/
 theorem save_repaired_32 :
     (G.new [32] 21).save = some ([0x4f, 0x58, 0x4c, 0x49, 4, 2, 21, 0, 0, 0, 1, 0, 0, 0, 0, 0, 0, 0, 0,
       32, 0, 0, 0, 0, 0, 0, 0, 0, 0, 0, 0, 0]) := by decide
 
 /-! ### T-layout -/
-
-theorem header_eq (g : G) (hn : g.tables.length ≤ 255) :
-    g.header = Khmer.fileHeader g.ksize g.tables.length g.occupied := by
-  have : g.tables.length % 256 = g.tables.length := by omega
-  simp [G.header, Khmer.fileHeader, magic, u32le_eq, u64le_eq, this]
-
-theorem records_eq (ts : List Table) (h : ∀ t ∈ ts, t.WF) :
-    ts.flatMap Table.record =
-      (ts.map (fun t => (t.size, t.get))).flatMap (fun t => Khmer.tableRecord t.1 (Khmer.tableData t.1 t.2)) := by
-  induction ts with
-  | nil => rfl
-  | cons t ts ih =>
-    simp only [List.flatMap_cons, List.map_cons, ih (fun u hu => h u (by simp [hu]))]
-    simp [Table.record, Khmer.tableRecord, u64le_eq, dataBytes_eq_tableData t (h t (by simp))]
 
 /-- T-layout: the bytes `save_to_writer` produces for a well-formed nodegraph are the khmer
     version-4 layout of its bit sets: `OXLI` 04 02, k as u32 le, table count as u8, occupied as u64 le,
@@ -101,13 +91,11 @@ theorem layout (g : G) (hg : g.WF) :
   rw [G.save_eq g (fun t h => (ht t h).2.1), header_eq g hn, records_eq _ ht]
   simp [Khmer.file]
 
-/-! ### T-roundtrip -/
+example : (G.new [32, 7] 21).save =
+    some (Khmer.file 21 0 ((G.new [32, 7] 21).tables.map (fun t => (t.size, t.get)))) :=
+  layout _ (new_wf _ _ (by decide) (by decide) (by decide))
 
-theorem records_as_pairs (ts : List Table) :
-    ts.flatMap Table.record = (ts.map (fun t => (t.size, t.dataBytes))).flatMap (fun r => le r.1 8 ++ r.2) := by
-  induction ts with
-  | nil => rfl
-  | cons t ts ih => simp [List.flatMap_cons, ih, Table.record]
+/-! ### T-roundtrip -/
 
 /-- T-roundtrip: loading what was saved gives back the same tables, k and occupied count
     (`unique_kmers` is not part of the file and is 0 after loading); trailing bytes do not matter. -/
@@ -135,25 +123,27 @@ theorem roundtrip (g : G) (hg : g.WF) (rest : List Nat) :
     exact loadTable_dataBytes t (ht t htm)
   simp [hm]
 
-/-- the statement above is not vacuous: a fresh nodegraph of any size vector is well formed -/
-theorem new_wf (sizes : List Nat) (k : Nat) (hn : sizes.length ≤ 255) (hk : k < 2 ^ 32)
-    (hs : ∀ s ∈ sizes, s < 2 ^ 64) : (G.new sizes k).WF := by
-  refine ⟨by simpa [G.new] using hn, hk, by simp [G.new], ?_⟩
-  intro t ht
-  simp only [G.new, List.mem_map] at ht
-  obtain ⟨s, hsm, rfl⟩ := ht
-  refine ⟨hs s hsm, by simp [Table.new], ?_, ?_⟩
-  · intro x hx
-    simp only [Table.new, List.mem_replicate] at hx
-    rw [hx.2]; exact Nat.two_pow_pos 32
-  · intro b _
-    simp [Table.get, Table.new, List.getD_eq_getElem?_getD, List.getElem?_replicate]
-    split <;> simp
-
 example : ∃ bytes, (G.new [32, 33, 8, 1] 31).save = some bytes ∧
     G.load bytes = some { G.new [32, 33, 8, 1] 31 with unique := 0 } := by
   have := roundtrip (G.new [32, 33, 8, 1] 31) (new_wf _ _ (by decide) (by decide) (by decide)) []
   simpa using this
+
+/-- T-roundtrip for everything the API can build: a nodegraph reached from `Nodegraph::new(sizes, k)`
+    by any history of `count` / `count_kmer` / sketch and nodegraph `update`s (`NG.Reach`, the
+    histories of C15) saves to the khmer layout of its bit sets and loads back to itself —
+    for all size vectors with 1 ≤ size < 2^64 and at most 255 tables. -/
+theorem roundtrip_reachable {sizes : List Nat} {g : G} {H : List Nat} {u : Nat} (r : Reach sizes g H u)
+    (hs : ∀ s ∈ sizes, 1 ≤ s ∧ s < 2 ^ 64) (hn : sizes.length ≤ 255) (hk : g.ksize < 2 ^ 32) :
+    g.save = some (Khmer.file g.ksize g.occupied (g.tables.map (fun t => (t.size, t.get)))) ∧
+    ∃ bytes, g.save = some bytes ∧ G.load bytes = some { g with unique := 0 } := by
+  have wf := r.wf hs hn hk
+  refine ⟨layout g wf, ?_⟩
+  have := roundtrip g wf []
+  simpa using this
+
+example : ∃ bytes, ((G.new [32, 7] 21).count 5).1.save = some bytes ∧
+    G.load bytes = some { ((G.new [32, 7] 21).count 5).1 with unique := 0 } :=
+  (roundtrip_reachable (sizes := [32, 7]) (Reach.count 5 (Reach.new 21)) (by decide) (by decide) (by decide)).2
 
 /-! ### T-khmer_load -/
 
@@ -184,6 +174,13 @@ theorem khmer_load (k occ : Nat) (recs : List (Nat × List Nat)) (rest : List Na
     refine ⟨loadTable r.1 r.2, by simp [hi], rfl, ?_⟩
     intro b
     exact loadTable_get _ _ (hr r (List.mem_of_getElem? hi)).2.2 b
+
+/-- a one-table file of size 9 whose second data byte has garbage above the size: bit 8 is kept, bits 9.. are dropped -/
+example : ∃ g, G.load (Khmer.fileHeader 3 1 7 ++ [(9, [0x81, 0xff])].flatMap (fun r => Khmer.tableRecord r.1 r.2) ++ []) = some g ∧
+    g.ksize = 3 ∧ g.occupied = 7 ∧ g.unique = 0 ∧ g.WF ∧ g.tables.length = 1 ∧
+    ∀ (i : Nat) (r : Nat × List Nat), [(9, [0x81, 0xff])][i]? = some r → ∃ t : Table, g.tables[i]? = some t ∧ t.size = r.1 ∧
+      ∀ b, t.get b = (decide (b < r.1) && Khmer.dataBit r.2 b) :=
+  khmer_load 3 7 [(9, [0x81, 0xff])] [] (by decide) (by decide) (by decide) (by decide)
 
 /-- the bundled khmer example (`RAW_DATA` of the crate's tests: sizes 19,17,13,11,7,5, k = 3) -/
 def rawData : List Nat := [0x4f, 0x58, 0x4c, 0x49, 0x04, 0x02, 0x03, 0x00, 0x00, 0x00, 0x06, 0x03, 0x00, 0x00,
